@@ -1,11 +1,15 @@
 from common import T_COMMON
 
 CFG = dict(
-    modules=["PolyVerif.Props.C03", "PolyVerif.Props.C03Values", "PolyVerif.Props.C03Normals", "PolyVerif.Props.C03Laplacian", "PolyVerif.Props.C03WeldUnweld", "PolyVerif.Props.C03Callbacks", "PolyVerif.Props.C03More", "PolyVerif.Props.C03Src"],
-    gen=[dict(spec="transform.json", out="Transform.lean"),
+    facts_files=["c02.go"],
+    modules=["PolyVerif.Props.C03", "PolyVerif.Props.C03Values", "PolyVerif.Props.C03Normals", "PolyVerif.Props.C03Laplacian", "PolyVerif.Props.C03WeldUnweld", "PolyVerif.Props.C03Callbacks", "PolyVerif.Props.C03More", "PolyVerif.Props.C03Src", "PolyVerif.Props.C02Guards"],
+    gen=[dict(tool="facts", mode="c02.guards", out="MeshGuards.lean"),
+         dict(spec="transform.json", out="Transform.lean"),
          # engine F: per-vertex expressions / loop glue of the attribute maps and the crop guard, from modeling/meshops/*.go (go/facts/c03.go)
          dict(tool="facts", mode="c03.pervertex", out="MeshPerVertex.lean")],
-    theorems=["unweld_spec", "unweld_idem", "removeUnreferenced_spec", "removeUnreferenced_allReferenced", "filterAttr_allReferenced", "flip_spec", "flip_flip", "flip_rejects",
+    theorems=[# Props/C02Guards.lean (engine F: every panic of modeling/mesh.go and topology.go with its conditions, regenerated)
+              "PolyVerif.C02.mesh_guards_from_source", "PolyVerif.C02.mesh_guards_count",
+              "unweld_spec", "unweld_idem", "removeUnreferenced_spec", "removeUnreferenced_allReferenced", "filterAttr_allReferenced", "flip_spec", "flip_flip", "flip_rejects",
               "toPointCloud_spec", "split_single", "split_rejects_non_triangle", "split_partition", "split_spec", "weld_corners", "weld_representative", "weld_survivors", "weld_spec", "weld_keyCorners", "weld_unweld", "append_spec", "append_rejects", "append_cornersOrZero", "repeatMesh_corners", "filterAttr_spec", "crop_spec", "removeNullFaces_spec", "filterAttr_rejects", "crop_rejects", "removeNullFaces_rejects", "weld_rejects", "scanAttr_spec", "scanVisits_spec", "scanPrimitives_spec", "modifyAttrIdx_spec", "modifyAttrIdx_rejects", "setAttr_spec", "modifyAttr_spec", "mapAttr_spec", "modifyAttr_rejects",
               "translate_spec", "scaleAbout_spec", "scaleMesh_spec", "rotate_spec", "applyTRS_spec", "center_spec",
               "normalize_spec", "translate_post", "scaleAbout_post", "rotate_post", "rotate_unit_post", "applyTRS_post", "center_post", "normalize_post",
